@@ -25,11 +25,11 @@ type captureStream struct {
 	envs []*remote.Envelope
 }
 
-func (s *captureStream) Context() context.Context                { return context.Background() }
+func (s *captureStream) Context() context.Context                  { return context.Background() }
 func (s *captureStream) MsgSend(drpc.Message, drpc.Encoding) error { return nil }
 func (s *captureStream) MsgRecv(drpc.Message, drpc.Encoding) error { return errors.New("not a reader") }
-func (s *captureStream) CloseSend() error                        { return nil }
-func (s *captureStream) Close() error                            { return nil }
+func (s *captureStream) CloseSend() error                          { return nil }
+func (s *captureStream) Close() error                              { return nil }
 func (s *captureStream) Send(e *remote.Envelope) error {
 	s.mu.Lock()
 	s.envs = append(s.envs, e)
@@ -45,12 +45,12 @@ type feedStream struct {
 	i    int
 }
 
-func (s *feedStream) Context() context.Context                { return context.Background() }
+func (s *feedStream) Context() context.Context                  { return context.Background() }
 func (s *feedStream) MsgSend(drpc.Message, drpc.Encoding) error { return nil }
 func (s *feedStream) MsgRecv(drpc.Message, drpc.Encoding) error { return errors.New("unused") }
-func (s *feedStream) CloseSend() error                        { return nil }
-func (s *feedStream) Close() error                            { return nil }
-func (s *feedStream) Send(*remote.Envelope) error             { return nil }
+func (s *feedStream) CloseSend() error                          { return nil }
+func (s *feedStream) Close() error                              { return nil }
+func (s *feedStream) Send(*remote.Envelope) error               { return nil }
 func (s *feedStream) Recv() (*remote.Envelope, error) {
 	if s.i >= len(s.envs) {
 		return nil, context.Canceled
@@ -94,10 +94,10 @@ type recProc struct {
 	log *recLogW
 }
 
-func (p *recProc) Start()                 {}
-func (p *recProc) PID() *actor.PID        { return p.pid }
+func (p *recProc) Start()                  {}
+func (p *recProc) PID() *actor.PID         { return p.pid }
 func (p *recProc) Invoke([]actor.Envelope) {}
-func (p *recProc) Shutdown()              {}
+func (p *recProc) Shutdown()               {}
 func (p *recProc) Send(_ *actor.PID, msg any, sender *actor.PID) {
 	p.log.mu.Lock()
 	p.log.got = append(p.log.got, delivery{TargetID: p.pid.ID, Msg: msg, Sender: sender})
@@ -123,9 +123,9 @@ const (
 	pkPing
 	pkMember
 	pkActivation
-	pkNonProto  // not a proto.Message: cannot be serialised
-	pkBadUTF8   // proto3 string with invalid UTF-8: Marshal fails
-	pkNilIface  // nil interface value
+	pkNonProto // not a proto.Message: cannot be serialised
+	pkBadUTF8  // proto3 string with invalid UTF-8: Marshal fails
+	pkNilIface // nil interface value
 	numPayloadKinds
 )
 
